@@ -645,6 +645,8 @@ def b_inject(tier, seed):
                     opts.fixed_point_max_iter = 2
                     opts.fixed_point_atol = 1e-300
                     opts.fixed_point_rtol = 1e-300
+                if kind == "nan":
+                    opts.newton_max_iter = 4  # every solve after t_nan runs out of iterations: keep those runs short
                 names = {"tqdm": _Pbar, "print": lambda *a, **kw: None}
                 if kind == "newton":
                     names["fsolve"] = inj
